@@ -49,6 +49,8 @@ TREES = [
     "def g(a, /, b=1, *c, d, e=2, **k):\n    return [a, {1: b, **k}]",
     # scopes inside the first iterable of a comprehension (evaluated in the enclosing scope)
     "def h():\n    return [i for i in [j for j in k] if (lambda: i)]\nz = {a: b for a in (c for c in d)}",
+    # two-operand containers that normalisation collapses to the surviving operand when the other one is removed
+    "x = a.y or b\nz = c.d < e[0]\nmatch s:\n    case [p, q] | None: pass",
 ]
 for _t in TREES:
     ast.parse(_t)
@@ -120,14 +122,17 @@ def alive(node, root):
                 v = v[pf.idx]
         except Exception:  # noqa: BLE001
             return False
-        if v is not n.a:
-            return False
+        if v is not n.a or getattr(n.a, 'f', None) is not n:
+            return False  # not reachable through its parent, or no longer the FST that owns its AST
         n = p
     return False
 
 
 def key_of(item):
-    return (id(item[0]), bool(item[1])) if isinstance(item, tuple) else (id(item), None)
+    """Identity of what is yielded: the AST node the FST stands for *at the time of the yield* (normalisation may hand the FST of a
+    collapsed container over to its surviving operand; that operand is then a different node as far as the walk is concerned)."""
+    n = item[0] if isinstance(item, tuple) else item
+    return (id(n.a), bool(item[1])) if isinstance(item, tuple) else (id(n.a), None)
 
 
 def node_of(item):
@@ -149,7 +154,7 @@ def run_script(fst, ti, si, script, res, consumer='walk'):
     kw.pop('start', None)
     default = list(start.walk(allv, **kw))            # reference order D on the untouched tree (C14 validates it)
     Dkeys = [key_of(x) for x in default]
-    keep = list(default)                              # hold references
+    keep = list(default) + [node_of(x).a for x in default]  # hold references (FST and AST ids must not be recycled)
     cid = f'C15/t{ti}/s{si}/' + ','.join(f'{k}:{a[0]}-{a[1]}' for k, a in sorted(script.items())) + ('' if consumer == 'walk' else '/' + consumer)
     rep = {'tree': ti, 'setting': si, 'script': [[k, list(a)] for k, a in sorted(script.items())], 'consumer': consumer}
     params = {'on': st['on'], 'actions': ','.join(a[0] + '-' + str(a[1]) for _, a in sorted(script.items()))}
@@ -162,6 +167,7 @@ def run_script(fst, ti, si, script, res, consumer='walk'):
 
     gen = start.walk(allv, **kw)
     yielded = []
+    ykeys_live = []
     seen = {}
     pending = list(Dkeys)       # original entries not yet yielded, in reference order
     pos = 0                     # position in D of the last original entry yielded
@@ -185,15 +191,19 @@ def run_script(fst, ti, si, script, res, consumer='walk'):
                 yielded.append(item)
                 keep.append(item)
                 g = node_of(item)
+                keep.append(g.a)
+                ykeys_live.append(key_of(item))
                 res.transitions += 1
                 if len(yielded) > horizon:
                     return bad('walk-does-not-terminate', f'{len(yielded)} yields, horizon {horizon}')
                 if not alive(g, root):
                     return bad('yielded-node-not-part-of-tree', f'step {step}: {g!r}')
                 k = key_of(item)
-                if k in seen and id(g) not in resent:
-                    if not (isinstance(item, tuple)) or True:
-                        return bad('node-yielded-twice', f'step {step}: {g!r} first at step {seen[k]}')
+                is_entry = (st['on'] == 'enter') or (isinstance(item, tuple) and not item[1])
+                if k in seen and id(g) not in resent and is_entry:
+                    # the property forbids a second *entry* of a node; a container that normalisation collapsed onto its surviving
+                    # operand is left once as that operand and once as the container, which is not an entry
+                    return bad('node-yielded-twice', f'step {step}: {g!r} first at step {seen[k]}')
                 seen[k] = step
                 if expect_first_child_of is not None:
                     par, want_child = expect_first_child_of
@@ -223,9 +233,9 @@ def run_script(fst, ti, si, script, res, consumer='walk'):
         import traceback
         return bad('walk-raised:' + e.__class__.__name__, f'step {step}: {e!r}\n' + traceback.format_exc()[-600:])
     # continuation: original entries still alive and not excused must all have been yielded, in reference order
-    ykeys = [key_of(x) for x in yielded]
+    ykeys = ykeys_live
     yset = set(ykeys)
-    orig_order = [k for k in ykeys if k in set(Dkeys)]
+    orig_order = [k for k in ykeys if k in set(Dkeys) and ('ast', k[0]) not in excused]
     idx = {k: i for i, k in enumerate(Dkeys)}
     if not script or all(a[0] != 'send' or a[1] is not True for a in script.values()):
         seq = [idx[k] for k in orig_order]
@@ -245,7 +255,7 @@ def run_script(fst, ti, si, script, res, consumer='walk'):
         if st.get('recurse', True) and not any(a == ('send', False) for a in script.values()):
             for k, x in zip(Dkeys[first + 1:], default[first + 1:]):
                 n = node_of(x)
-                if k not in yset and alive(n, root) and id(n) not in excused and _passes(n, allv):
+                if k not in yset and alive(n, root) and id(n) not in excused and ('ast', k[0]) not in excused and _passes(n, allv):
                     return bad('live-node-after-the-action-never-yielded', f'{n!r} (reference position {idx[k]})')
         res.nontriv(ti, si, tuple(sorted(script.items())))
     res.outcomes['ok'] += 1
@@ -311,7 +321,18 @@ def do_action(fst, root, g, item, act, yielded, default, Dkeys, st, allv, resent
         for dsc in t.walk(True, self_=False):
             excused.add(id(dsc))
         if kind == 'remove':
+            par = t.parent
+            par_a = par.a if par is not None else None
+            below = [(a_, getattr(a_, 'f', None)) for a_ in ast.walk(par_a)] if par_a is not None else []
             t.remove(norm=True)
+            if par is not None and par.a is not par_a and par_a is not None:
+                # normalisation collapsed the container onto its surviving operand: the parent counts as replaced, everything that
+                # was below it is excused from the continuation-order expectations (it is still checked for liveness / entries)
+                excused.add(id(par))
+                for a_, f_ in below:
+                    excused.add(('ast', id(a_)))
+                    if f_ is not None:
+                        excused.add(id(f_))
             return True
         if kind in ('replace', 'replace-big', 'replace-scope'):
             code = code_for(t, kind == 'replace-big')
